@@ -18,13 +18,36 @@ static GLOBAL: c02op::Counting = c02op::Counting;
 
 const SMALL_STACK: usize = 192 * 1024;
 
+// per-operation watchdog: an operation that runs longer than LIMIT_MS aborts the process (the orchestrator attributes
+// the death to the operation): a loop that never ends must not hang the check
+mod watchdog {
+    use std::sync::atomic::{AtomicU64, Ordering};
+    use std::time::{Duration, Instant};
+    static DEADLINE: AtomicU64 = AtomicU64::new(0);      // ms since START at which the running op is overdue; 0 = idle
+    static mut START: Option<Instant> = None;
+    const LIMIT_MS: u64 = 120_000;
+    fn now_ms() -> u64 { unsafe { (*std::ptr::addr_of!(START)).map(|s| s.elapsed().as_millis() as u64).unwrap_or(0) } }
+    pub fn start() {
+        unsafe { START = Some(Instant::now()); }
+        std::thread::Builder::new().stack_size(64 * 1024).spawn(|| loop {
+            std::thread::sleep(Duration::from_millis(500));
+            let d = DEADLINE.load(Ordering::Relaxed);
+            if d != 0 && now_ms() > d { eprintln!("watchdog: operation exceeded its time limit"); std::process::abort() }
+        }).expect("watchdog");
+    }
+    pub fn begin() { DEADLINE.store(now_ms() + LIMIT_MS, Ordering::Relaxed) }
+    pub fn end() { DEADLINE.store(0, Ordering::Relaxed) }
+}
+
 fn main() {
+    watchdog::start();
     std::panic::set_hook(Box::new(|_| {}));
     if std::env::args().nth(1).as_deref() == Some("tlist") { typed::tlist(); return }
     let stdin = std::io::stdin();
     let stdout = std::io::stdout();
     let mut out = std::io::BufWriter::new(stdout.lock());
     for line in stdin.lock().lines() {
+        watchdog::begin();
         let line = line.expect("stdin");
         let line = line.trim();
         if line.is_empty() || line.starts_with('#') { continue }
@@ -43,6 +66,7 @@ fn main() {
         } else {
             util::guard(|| dispatch(&w)).unwrap_or_else(|| "panic".to_string())
         };
+        watchdog::end();
         writeln!(out, "{}", r).unwrap();
     }
 }
